@@ -311,9 +311,19 @@ func driveAltKey(t *Tracer, r Rng, n int) {
 			}
 			continue
 		}
+		std := r.Chance(0.2) // the library's own constants: 1 m at zoom 25, key 0 at -2^24 m (or at the ground)
+		if std {
+			E, O = 25, r.Pick(1<<24, 1<<24, 0, 1<<25)
+		}
 		if r.Chance(0.5) {
 			zi := r.In(0, 35)
 			zo := r.In(maxI(0, E-12), minI(35, E+3))
+			if std || r.Chance(0.3) { // any key zoom, also far coarser than the base exponent (cells of 2^25 m)
+				zo = r.In(0, 35)
+				if r.Chance(0.4) {
+					zo = zi
+				}
+			}
 			nz := int64(1) << uint(minI(zi, 28))
 			f := r.edgeIn(-nz, nz-1)
 			if r.Chance(0.5) {
@@ -329,6 +339,12 @@ func driveAltKey(t *Tracer, r Rng, n int) {
 		} else {
 			kz := r.In(maxI(0, E-12), minI(35, E+3))
 			zo := r.In(0, 28)
+			if std || r.Chance(0.3) {
+				kz = r.In(0, 35)
+				if r.Chance(0.4) {
+					zo = kz
+				}
+			}
 			nk := int64(1) << uint(minI(kz, 28))
 			k := r.edgeIn(0, nk-1)
 			if r.Chance(0.5) {
